@@ -497,7 +497,7 @@ static long long sim_ns;
 /* pct: per-thread priorities (higher runs first), up to 8 change points at seeded steps within
  * the horizon where the running thread drops below everyone else. stall: random walk plus up to
  * 8 long preemptions (a seeded thread is frozen for a seeded number of decisions while others can run). */
-static unsigned long s_prio[MAXT];
+static long s_prio[MAXT];
 static long s_horizon = 256, s_change[8], s_nchange, s_low = 1000;
 static long s_stall_at[8], s_stall_len[8], s_nstall, s_frozen = -1, s_frozen_until;
 
@@ -561,7 +561,7 @@ static void e3_parse(const char *rest) {
     if (!strcmp(s_policy, "pct")) {
         s_nchange = s_param > 8 ? 8 : s_param;
         for (int k = 0; k < s_nchange; k++) s_change[k] = 1 + (long)(rng_next() % (unsigned long)s_horizon);
-        s_prio[0] = 2000 + (rng_next() & 0xffffff);
+        s_prio[0] = 2000 + (long)(rng_next() & 0xffffff);
     } else if (!strcmp(s_policy, "stall")) {
         s_nstall = s_param > 8 ? 8 : s_param;
         for (int k = 0; k < s_nstall; k++) {
@@ -594,7 +594,7 @@ static int pick_next(int yielding) {
             /* a change point, and an explicit yield (a poller must not starve everyone), demote the running thread */
             int demote = yielding;
             for (int k = 0; k < s_nchange; k++) if (s_change[k] == s_steps) demote = 1;
-            if (demote && cur_ok && s_low > 1) s_prio[cur] = (unsigned long)--s_low;
+            if (demote && cur_ok) s_prio[cur] = --s_low; /* signed: demotions never run out */
             chosen = ids[0];
             for (int i = 1; i < n; i++) if (s_prio[ids[i]] > s_prio[chosen]) chosen = ids[i];
         } else if (!strcmp(s_policy, "stall")) {
@@ -686,7 +686,7 @@ int pthread_create(pthread_t *thread, const pthread_attr_t *attr, void *(*fn)(vo
     if (nthr >= MAXT) { pthread_mutex_unlock(&G); errno = EAGAIN; return EAGAIN; }
     int id = nthr++;
     T[id].state = T_RUNNABLE; T[id].fn = fn; T[id].arg = arg;
-    if (!strcmp(s_policy, "pct")) s_prio[id] = 2000 + (rng_next() & 0xffffff);
+    if (!strcmp(s_policy, "pct")) s_prio[id] = 2000 + (long)(rng_next() & 0xffffff);
     pthread_cond_init(&T[id].cv, NULL);
     e3_log2("B", id, -1);
     pthread_mutex_unlock(&G);
